@@ -84,7 +84,9 @@ def gen_cases(ctx):
 BK_KINDS = ('call', 'call-kw', 'notify', 'batch', 'batch-notify', 'send-headers', 'client-headers')
 BK_STATUS = (200, 201, 404, 500)
 BK_CTYPES = (None, 'application/json', 'application/json; charset=utf-8', 'application/json-rpc', 'application/jsonrequest',
-             'text/html', 'text/plain; charset=utf-8', 'APPLICATION/JSON', 'application/json;charset=utf-8', ' application/json')
+             'text/html', 'text/plain; charset=utf-8', 'APPLICATION/JSON', 'application/json;charset=utf-8', ' application/json',
+             # the reply declares another charset and its body really is encoded in it
+             'application/json; charset=iso-8859-1')
 BK_BODIES = ('valid', 'empty', 'error', 'not-json', 'wrong-id', 'non-ascii', 'not-response')
 
 _SYS = {}
@@ -393,7 +395,10 @@ def run_backend(case, rec):
                 seen.append(req)
                 doc = json.loads(req['body'].decode('utf-8'))
                 ct = BK_CTYPES[case['ct']]
-                return case['status'], ([] if ct is None else [('Content-Type', ct)]), bk_body(kind, doc, case['body'])
+                payload = bk_body(kind, doc, case['body'])
+                if ct and 'iso-8859-1' in ct:
+                    payload = payload.decode('utf-8').replace('\u20ac', '\u00fc').encode('iso-8859-1')
+                return case['status'], ([] if ct is None else [('Content-Type', ct)]), payload
             user_headers = {'X-Trace': 't1'}
             ckw = dict(raise_for_status=case['rfs'], strict=case['strict'])
             if kind == 'client-headers':
